@@ -46,7 +46,9 @@ func genXMLFragment(r *rand.Rand, depth int) string {
 			// empty, or nothing but white space (pretty-printed configuration)
 			return "<" + name + attrs + ">" + pick(r, "", "", "\n", " ", "\n    ", "\r\n") + "</" + name + ">"
 		default:
-			txt := pick(r, "eth0", "GigabitEthernet0/0/1", "日本語", "é€", "a &amp; b", "1 &lt; 2", "line one\r\nline two", word(r, lower+digits+" .-", 1, 40), word(r, lower, 200, 600))
+			txt := pick(r, "eth0", "GigabitEthernet0/0/1", "日本語", "é€", "a &amp; b", "1 &lt; 2", "line one\r\nline two", word(r, lower+digits+" .-", 1, 40), word(r, lower, 200, 600),
+				// (what a formatting function would take for a verb)
+				"load above 90%, 5% free", "path%2Fwith%20escapes", "%d items, %s, %v, 100%%", "%!s(MISSING) %[1]d %-5.2f")
 
 			return "<" + name + attrs + ">" + txt + "</" + name + ">"
 		}
@@ -72,7 +74,9 @@ func genNCOp(r *rand.Rand) NCOp {
 		switch r.IntN(4) {
 		case 0:
 			op.FilterType = "xpath"
-			op.A = pick(r, "/interfaces/interface[name='eth0']", `/a/b[c="x"]/d`, "//system/*[local-name()='ntp' and ../x > 1]", "/é/日本")
+			op.A = pick(r, "/interfaces/interface[name='eth0']", `/a/b[c="x"]/d`, "//system/*[local-name()='ntp' and ../x > 1]", "/é/日本",
+				// (string literals keep their white space, whatever kind)
+				"/sites/site[name='Head  Office']", "/sites/site[name=\"東京\u3000支店\"]", "/a/b[descr='tab\there']", "/a/b[descr='no\u00a0break']", " /leading/and/trailing ", "/load[util='90%']")
 		case 1:
 			op.A = ""
 		default:
@@ -83,7 +87,7 @@ func genNCOp(r *rand.Rand) NCOp {
 		switch r.IntN(4) {
 		case 0:
 			op.FilterType = "xpath"
-			op.Filter = "/interfaces/interface[name='eth0']/config"
+			op.Filter = pick(r, "/interfaces/interface[name='eth0']/config", "/sites/site[name='Head  Office']/config", "/a/b[descr='50%  of\u3000it']")
 		case 1, 2:
 			op.Filter = genXMLFragment(r, 2)
 		}
